@@ -169,6 +169,21 @@ pub fn run(tier: Tier) -> ! {
         }
     });
     chk.set("part_i_enriched_texts", json!(texts_e.len()));
+    // (i'') every Unicode scalar value (NUL excluded) as a one-character token carrying itself as its tag,
+    // and between two ordinary tokens ("a c b", all three tagged with c): no character outside the
+    // delimiters may be treated specially by the writer or the parser
+    {
+        let all: Vec<char> = (1u32..=0x10FFFF).filter_map(char::from_u32).collect();
+        chk.set("part_i_all_scalar_values", json!(all.len()));
+        all.par_iter().for_each(|&c| {
+            let t = Some(c.to_string());
+            report(&[c], &[], &[vec![t.clone()]]);
+            if tier == Tier::Thorough || (c as u32) < 0x3100 || (c as u32) % 7 == 0 {
+                report(&['a', c, 'b'], &[1, 1], &[vec![t.clone()], vec![None, t.clone()], vec![t.clone()]]);
+                report(&['a', c], &[0], &[vec![t.clone(), t.clone()]]);
+            }
+        });
+    }
     // (ii) 1-3 tokens x every per-token tag list
     let tagpool: Vec<Option<&str>> = vec![None, Some("x"), Some("/"), Some("\\"), Some(" "), Some("あ"), Some("a/b"), Some("x "), Some("あ/𠀋\\"), Some("\u{3000}\t")];
     let surfaces: [&[char]; 3] = [&['a'], &['あ', 'b'], &['/', ' ']];
@@ -246,7 +261,7 @@ pub fn run(tier: Tier) -> ! {
     chk.sample(json!({"kind": "idempotence", "x": "a\\ /\\/ あ"}));
     chk.assume("tags sit on token-final characters (the writer documents that others are ignored)");
     chk.finish(
-        "(i) all texts x all {N,W} vectors untagged; (ii) 1-3 tokens x all per-token tag lists over 9 hostile tags (incl. an escapable character right after a multi-byte one); (iii) cross product on reduced pools; (iv) all strings up to part_iv_max_len over {a,' ','/','\\\\',あ} for write-after-parse idempotence; non-trivial = delimiter in text or any tag list / accepted string; distinct by construction",
+        "(i) all texts x all {N,W} vectors untagged, plus every Unicode scalar value as a token and as a tag; (ii) 1-3 tokens x all per-token tag lists over 9 hostile tags (incl. an escapable character right after a multi-byte one); (iii) cross product on reduced pools; (iv) all strings up to part_iv_max_len over {a,' ','/','\\\\',あ} for write-after-parse idempotence; non-trivial = delimiter in text or any tag list / accepted string; distinct by construction",
         true,
         &replay,
     )
